@@ -114,6 +114,9 @@ var glSpecs = []glSpec{
 	{"bucketteer", "", "readUint64Le", "bkReadUint64Le"},
 	{"bucketteer", "Reader", "Has", "bkReaderHas"},
 	{"gsfa/linkedlog", "uvarintReader", "ReadUvarint", "uvrReadUvarint"},
+	{"gsfa/linkedlog", "", "decompressIndexes", "llDecompressIndexes"},
+	{"gsfa/linkedlog", "LinkedLog", "ReadWithSize", "llReadWithSize"},
+	{"gsfa/linkedlog", "LinkedLog", "Read", "llRead"},
 	{"gsfa/linkedlog", "uvarintReader", "ReadByte", "uvrReadByte"},
 	{"gsfa/linkedlog", "OffsetAndSizeAndSlot", "FromReader", "oassFromReader"},
 	{"gsfa/linkedlog", "", "OffsetAndSizeAndSlotSliceFromBytes", "oassSliceFromBytes"},
@@ -122,15 +125,23 @@ var glSpecs = []glSpec{
 func init() { generators = append(generators, genGoLean) }
 
 // externs: functions outside the translated set that become parameters
-type glExtern struct{ param, leanType string }
+type glExtern struct {
+	param, leanType string
+	monadic         bool // the parameter returns in the monad (its Go error is a thrown `.err`)
+	withRecv        bool // a method: the receiver is the first argument of the parameter
+}
 
 var glExterns = map[string]glExtern{
-	"github.com/cespare/xxhash/v2.Sum64": {"xxSum64", "List UInt8 → UInt64"},
-	"github.com/rpcpool/yellowstone-faithful/compactindexsized.EntryHash64": {"entryHash64", "UInt32 → List UInt8 → UInt64"},
+	"github.com/cespare/xxhash/v2.Sum64": {param: "xxSum64", leanType: "List UInt8 → UInt64"},
+	"github.com/rpcpool/yellowstone-faithful/compactindexsized.EntryHash64": {param: "entryHash64", leanType: "UInt32 → List UInt8 → UInt64"},
+	// zstd is third-party: an arbitrary partial function on byte strings
+	"github.com/rpcpool/yellowstone-faithful/tooling.DecompressZstd": {param: "zstdDecompress", leanType: "List UInt8 → M (List UInt8)", monadic: true},
+	// os.File.Stat().Size(): the size of the file behind the log, whatever the operating system says
+	"github.com/rpcpool/yellowstone-faithful/gsfa/linkedlog.LinkedLog.getCurrentOffset": {param: "fileSizeOf", leanType: "Linkedlog_LinkedLog → M UInt64", monadic: true, withRecv: true},
 }
 
 // functions whose Go errors are data (they inspect, compare and return error VALUES such as io.EOF)
-var glErrData = map[string]bool{"scfMultiReadAt": true, "uvrReadUvarint": true, "uvrReadByte": true, "oassFromReader": true, "oassSliceFromBytes": true, "bkReadUint64Le": true, "bkReaderHas": true, "ciOpen": true, "ciReadFrom": true, "ciGetBucket": true, "ciLoadEntry": true, "ciBucketLookup": true, "ciLookupBucket": true, "ciDBLookup": true}
+var glErrData = map[string]bool{"scfMultiReadAt": true, "uvrReadUvarint": true, "uvrReadByte": true, "oassFromReader": true, "oassSliceFromBytes": true, "llDecompressIndexes": true, "llReadWithSize": true, "llRead": true, "bkReadUint64Le": true, "bkReaderHas": true, "ciOpen": true, "ciReadFrom": true, "ciGetBucket": true, "ciLoadEntry": true, "ciBucketLookup": true, "ciLookupBucket": true, "ciDBLookup": true}
 
 var leanKeywords = map[string]bool{}
 
@@ -464,7 +475,7 @@ func (g *glGen) analyse() {
 						return true
 					}
 					qn := qualName(cf)
-					if strings.HasPrefix(qn, "encoding/binary.littleEndian.PutUint") || qn == "encoding/binary.PutUvarint" || qn == "io.ReaderAt.ReadAt" {
+					if strings.HasPrefix(qn, "encoding/binary.littleEndian.PutUint") || qn == "encoding/binary.PutUvarint" || qn == "io.ReaderAt.ReadAt" || qn == "io.SectionReader.ReadAt" || qn == "os.File.ReadAt" {
 						mark(x.Args[0])
 					}
 					if qn == "io.ReadFull" {
@@ -540,11 +551,11 @@ func (g *glGen) leanTypeOK(t types.Type) (string, bool) {
 	if isErrorType(t) {
 		return "Go.Error", true // only reached in functions translated with errors as data
 	}
-	if isNamed(t, "io", "ReaderAt") || isNamed(t, "io", "SectionReader") {
+	if isNamed(t, "io", "ReaderAt") || isNamed(t, "io", "SectionReader") || isNamed(t, "os", "File") {
 		return "Go.ReaderAt", true
 	}
-	if pt, ok := t.(*types.Pointer); ok && isNamed(pt.Elem(), "io", "SectionReader") {
-		return "Go.ReaderAt", true
+	if pt, ok := t.(*types.Pointer); ok && (isNamed(pt.Elem(), "io", "SectionReader") || isNamed(pt.Elem(), "os", "File")) {
+		return "Go.ReaderAt", true // *os.File: only its ReadAt is used (io.ReaderAt contract, trusted base)
 	}
 	if nt, ok := t.(*types.Named); ok {
 		if _, isStruct := nt.Underlying().(*types.Struct); isStruct {
@@ -669,10 +680,10 @@ func (g *glGen) zero(t types.Type) (string, bool) {
 	if isErrorType(t) {
 		return "Go.Error.nil", true
 	}
-	if isNamed(t, "io", "ReaderAt") || isNamed(t, "io", "SectionReader") {
+	if isNamed(t, "io", "ReaderAt") || isNamed(t, "io", "SectionReader") || isNamed(t, "os", "File") {
 		return "(default : Go.ReaderAt)", true
 	}
-	if pt, ok := t.(*types.Pointer); ok && isNamed(pt.Elem(), "io", "SectionReader") {
+	if pt, ok := t.(*types.Pointer); ok && (isNamed(pt.Elem(), "io", "SectionReader") || isNamed(pt.Elem(), "os", "File")) {
 		return "(default : Go.ReaderAt)", true
 	}
 	if nt, ok := t.(*types.Named); ok {
@@ -758,7 +769,7 @@ func (g *glGen) structDefs() string {
 func namedStructsIn(t types.Type) []*types.Named {
 	switch u := t.(type) {
 	case *types.Named:
-		if isNamed(u, "io", "SectionReader") || isNamed(u, "bytes", "Reader") || isNamed(u, "bytes", "Buffer") {
+		if isNamed(u, "io", "SectionReader") || isNamed(u, "bytes", "Reader") || isNamed(u, "bytes", "Buffer") || isNamed(u, "os", "File") {
 			return nil // given a meaning in GoSem, not translated as structures
 		}
 		if _, ok := u.Underlying().(*types.Struct); ok {
